@@ -70,35 +70,42 @@ def argmaxCount (cs : List (Int × Int)) : Option Int :=
 
 /-! ## common rows -/
 
+/-- all higher-coordinate tuples of a shape tail, row-major -/
+def hiCells : List Nat → List (List Int)
+  | [] => [[]]
+  | n :: ns => (List.range n).flatMap fun (j : Nat) => (hiCells ns).map ((j : Int) :: ·)
+
+/-- rows not listed by any entry with higher coordinates `hi` (1-D: `hi = []`; 2-D: `hi = [col]`) -/
+def commonRowidsHi (i : IIndex) (hi : List Int) : Rows :=
+  (List.range i.nrows).filter (fun r => !(i.entries.any fun e => e.1.drop 1 == hi && e.2.contains r))
+
 /-- `common_rowids(colindex)` for 1-D (`col = none`) and 2-D indexes -/
 def commonRowids (i : IIndex) (col : Option Int) : Rows :=
-  let listed : List Nat :=
-    if i.ndim > 1 then
-      (i.entries.filter (fun e => some (e.1.getD 1 0) == col)).flatMap (·.2)
-    else i.entries.flatMap (·.2)
-  (List.range i.nrows).filter (fun r => !listed.contains r)
+  if i.ndim > 1 then
+    match col with
+    | some c => commonRowidsHi i [c]
+    | none => List.range i.nrows          -- `coords[1] == None` never holds
+  else commonRowidsHi i []
+
+/-- the value `shift_common()` picks: the most frequent one (ties to the larger value) -/
+def chooseCommon (i : IIndex) : Option Int :=
+  let cs := i.entries.foldl (fun cs e => cadd cs (val0 e.1) e.2.length) ([] : List (Int × Int))
+  let tot := (cs.map (·.2)).foldl (· + ·) 0
+  argmaxCount (cset cs i.common ((i.size : Int) - tot))
 
 /-- `shift_common(new_common)` -/
 def shiftCommon (i : IIndex) (new : Option Int) : M IIndex := do
   let nc ← match new with
     | some v => pure v
-    | none =>
-      let cs := i.entries.foldl (fun cs e => cadd cs (val0 e.1) e.2.length) ([] : List (Int × Int))
-      let tot := (cs.map (·.2)).foldl (· + ·) 0
-      let cs := cset cs i.common ((i.size : Int) - tot)
-      match argmaxCount cs with
+    | none => match chooseCommon i with
       | some v => pure v
       | none => throw (.valueError "max() of empty")
   if nc == i.common then pure i else
   if i.ndim > 2 then throw (.scope "shift_common on a 3-D index") else
-  let es :=
-    if i.ndim > 1 then
-      (List.range (i.shape.getD 1 0)).foldl (fun es (col : Nat) =>
-        let cr := commonRowids i (some (col : Int))
-        if cr.isEmpty then es else dset es [i.common, (col : Int)] cr) i.entries
-    else
-      let cr := commonRowids i none
-      if cr.isEmpty then i.entries else dset i.entries [i.common] cr
+  -- materialise the old common rows, column by column (the mask is taken from the entries as they were)
+  let es := (hiCells (i.shape.drop 1)).foldl (fun es hi =>
+      let cr := commonRowidsHi i hi
+      if cr.isEmpty then es else dset es (i.common :: hi) cr) i.entries
   pure { entries := es.filter (fun e => !(val0 e.1 == nc)), common := nc, shape := i.shape }
 
 /-! ## array conversion -/
@@ -187,56 +194,82 @@ def dappend (es : List (Key × Rows)) (k : Key) (r : Nat) : List (Key × Rows) :
   | none => dset es k [r]
   | some old => dset es k (old ++ [r])
 
+def mapVal (mapping : Option (List (Int × Int))) (v : Int) : M Int :=
+  match mapping with
+  | none => pure v
+  | some m => match lookup m v with | some x => pure x | none => throw (.keyError v)
+
+def Arr.twoD (a : Arr) : Bool := a.shape.length > 1
+def Arr.cols (a : Arr) : List Nat := if a.twoD then List.range (a.shape.getD 1 0) else [0]
+def Arr.key (a : Arr) (v : Int) (c : Nat) : Key := if a.twoD then [v, (c : Int)] else [v]
+
+/-- one distinct value of the per-value `numpy.where` construction -/
+def whereStep (a : Arr) (mapping : Option (List (Int × Int))) (common : Int)
+    (es : List (Key × Rows)) (c : Int × Int) : M (List (Key × Rows)) :=
+  match mapVal mapping c.1 with
+  | .error e => .error e
+  | .ok mv =>
+    .ok (if mv == common then es else
+      a.cols.foldl (fun es col =>
+        let rows := whereEq (a.col col) c.1
+        if rows.isEmpty then es else dunion es (a.key mv col) rows) es)
+
+/-- the per-value `numpy.where` construction: for each distinct value (in `counts` order) and each
+column, merge the matching rows under the (mapped) value -/
+def buildWhere (a : Arr) (mapping : Option (List (Int × Int))) (common : Int)
+    (counts : List (Int × Int)) : M (List (Key × Rows)) :=
+  counts.foldlM (whereStep a mapping common) []
+
+/-- one cell of the per-row scan construction -/
+def scanStep (a : Arr) (mapping : Option (List (Int × Int))) (common : Int) (col : Nat)
+    (es : List (Key × Rows)) (r : Nat) : M (List (Key × Rows)) :=
+  match mapVal mapping (a.at r col) with
+  | .error e => .error e
+  | .ok mv => .ok (if mv == common then es else dappend es (a.key mv col) r)
+
+/-- the per-row scan construction: column by column, row by row, append the row under its (mapped) value -/
+def buildScan (a : Arr) (mapping : Option (List (Int × Int))) (common : Int) : M (List (Key × Rows)) :=
+  a.cols.foldlM (fun es col => (List.range a.nrows).foldlM (scanStep a mapping common col) es) []
+
+def finalCountsOf (mapping : Option (List (Int × Int))) (counts : List (Int × Int)) : M (List (Int × Int)) :=
+  match mapping with
+  | none => pure counts
+  | some _ => counts.foldlM (fun fc (c : Int × Int) => do pure (cadd fc (← mapVal mapping c.1) c.2)) []
+
+/-- common selection: caller's (mapped), else the first strict maximum in dict order, else the smallest
+mapping target, else `ValueError` -/
+def pickCommon (o : FromOpts) (finalCounts : List (Int × Int)) : M Int :=
+  match o.common with
+  | some c => mapVal o.mapping c
+  | none =>
+    match finalCounts with
+    | c :: rest => pure (rest.foldl (fun (best : Int × Int) x => if x.2 > best.2 then x else best) c).1
+    | [] => match o.mapping with
+      | some (m :: ms) => pure (listMin ((m :: ms).map (·.2)) m.2)
+      | _ => throw (.valueError "No values or common value provided.")
+
+/-- the strategy switch: `values.size == 0 or len(counts) < 5`, else `(len(counts) / uncommon_ratio) < 100`
+(in exact arithmetic) -/
+def useWhere (size : Nat) (counts finalCounts : List (Int × Int)) (common : Int) : M Bool :=
+  if size = 0 ∨ counts.length < 5 then pure true
+  else
+    let tot := (finalCounts.map (·.2)).foldl (· + ·) 0
+    let uncommon := tot - (lookup finalCounts common).getD 0
+    if uncommon = 0 then throw .zeroDivision
+    else pure (decide ((counts.length : Int) * size < 100 * uncommon))
+
 /-- `iindex.from_array(values, counts, common, mapping)` for 1-D and 2-D integer arrays.
-`strategy` reports which construction path ran (`true` = per-value `numpy.where`). -/
+The `Bool` reports which construction path ran (`true` = per-value `numpy.where`). -/
 def fromArray (a : Arr) (o : FromOpts) : M (IIndex × Bool) := do
   if a.shape.length = 0 ∨ a.shape.length > 2 then throw (.scope "from_array needs 1 or 2 axes")
   let counts := match o.counts with
     | some c => c
     | none => countValues a.data
-  let mapv (v : Int) : M Int := match o.mapping with
-    | none => pure v
-    | some m => match lookup m v with | some x => pure x | none => throw (.keyError v)
-  let finalCounts ← match o.mapping with
-    | none => pure counts
-    | some _ => counts.foldlM (fun fc (c : Int × Int) => do pure (cadd fc (← mapv c.1) c.2)) []
-  let common ← match o.common with
-    | none =>
-      if finalCounts.length > 0 then
-        -- first strict maximum in dict order
-        match finalCounts with
-        | [] => throw (.valueError "unreachable")
-        | c :: rest => pure (rest.foldl (fun (best : Int × Int) x => if x.2 > best.2 then x else best) c).1
-      else match o.mapping with
-        | some (m :: ms) => pure (listMin ((m :: ms).map (·.2)) m.2)
-        | _ => throw (.valueError "No values or common value provided.")
-    | some c => mapv c
-  let size := prod a.shape
-  let useWhere ←
-    if size = 0 ∨ counts.length < 5 then pure true
-    else
-      let tot := (finalCounts.map (·.2)).foldl (· + ·) 0
-      let uncommon := tot - (lookup finalCounts common).getD 0
-      -- (len(counts) / (uncommon / size)) < 100, in exact arithmetic
-      if uncommon = 0 then throw .zeroDivision
-      else pure (decide ((counts.length : Int) * size < 100 * uncommon))
-  let twoD := a.shape.length > 1
-  let cols := if twoD then List.range (a.shape.getD 1 0) else [0]
-  let key (v : Int) (c : Nat) : Key := if twoD then [v, (c : Int)] else [v]
-  let entries ←
-    if useWhere then
-      counts.foldlM (fun es (c : Int × Int) => do
-        let mv ← mapv c.1
-        if mv == common then pure es else
-        pure (cols.foldl (fun es col =>
-          let rows := whereEq (a.col col) c.1
-          if rows.isEmpty then es else dunion es (key mv col) rows) es)) []
-    else
-      cols.foldlM (fun es col =>
-        (List.range a.nrows).foldlM (fun es r => do
-          let mv ← mapv (a.at r col)
-          if mv == common then pure es else pure (dappend es (key mv col) r)) es) []
-  pure ({ entries := entries, common := common, shape := a.shape }, useWhere)
+  let finalCounts ← finalCountsOf o.mapping counts
+  let common ← pickCommon o finalCounts
+  let w ← useWhere (prod a.shape) counts finalCounts common
+  let entries ← if w then buildWhere a o.mapping common counts else buildScan a o.mapping common
+  pure ({ entries := entries, common := common, shape := a.shape }, w)
 
 /-! ## transformed copies and combination -/
 
@@ -522,27 +555,26 @@ def validates (i : IIndex) : Bool :=
   i.entries.all (fun e => i.entries.all (fun f =>
     !(val0 e.1 != val0 f.1 && e.1.drop 1 == f.1.drop 1) || e.2.all (fun r => !f.2.contains r)))
 
+def keysDistinct : List Key → Bool
+  | [] => true
+  | k :: ks => !ks.contains k && keysDistinct ks
+
 /-- the full C07 predicate: `validates` plus what the validator does not check — row ids below
 the row count (and below 2^32), key arity and higher coordinates within the shape, no empty
 entry, distinct keys -/
 def wf (i : IIndex) : Bool :=
-  validates i &&
+  decide (0 < i.ndim) && validates i &&
   i.entries.all (fun e =>
     e.1.length == i.ndim && !e.2.isEmpty && e.2.all (fun r => decide (r < i.nrows) && decide (r < 2^32)) &&
     (List.range (i.ndim - 1)).all (fun j => decide (0 ≤ e.1.getD (j + 1) 0) &&
       decide (e.1.getD (j + 1) 0 < (i.shape.getD (j + 1) 0 : Int)))) &&
-  (i.entries.map (·.1)).eraseDups.length == i.entries.length
+  keysDistinct (i.entries.map (·.1))
 
 /-- value at a cell `row :: higher coordinates`: the value of the first entry listing it, else common -/
 def denseAt (i : IIndex) (row : Nat) (hi : List Int) : Int :=
   match i.entries.find? (fun e => e.1.drop 1 == hi && e.2.contains row) with
   | some e => val0 e.1
   | none => i.common
-
-/-- all higher-coordinate tuples of a shape tail, row-major -/
-def hiCells : List Nat → List (List Int)
-  | [] => [[]]
-  | n :: ns => (List.range n).flatMap fun (j : Nat) => (hiCells ns).map ((j : Int) :: ·)
 
 /-- the dense array an index stands for (any number of axes), flat row-major -/
 def denseArr (i : IIndex) : Arr :=
